@@ -15,6 +15,7 @@
 -/
 import Cog.Sem.GoStrictLemmas
 import Cog.Front.KeepsConstraints
+import Cog.Front.OpenApiKeeps
 import Cog.Gen.Chains
 namespace Cog.Sem
 open Cog.IR Cog.Sem.C08
@@ -460,6 +461,75 @@ theorem C08_jsonschema_validate_counterexample : ¬ C08_jsonschema_validate_full
   | panic _ => simp [hS] at hw
 
 end FE
+/-! ### the same for OpenAPI inputs (front-end model: Cog/Front/OpenApi*.lean; tie: stream `c01-front-oa`):
+    the constraint list is `getConstraints` of utils.go — `minLength` (only when > 0), `maxLength`, `multipleOf`, `>=` / `>`
+    (`exclusiveMinimum`), `<=` / `<`, with int64 bounds for `type: integer` and float64 bounds otherwise. -/
+
+namespace OA
+open Cog.Front.OpenApi Cog.Front.Keeps Cog.Sem.Src Cog.Passes Cog.Gen.Chains
+
+theorem C08_openapi_validate_end_to_end_partial
+    (pkg : String) (fuel : Nat) (cs : Components) (S Sg : Schemas) (name : String) (r : OSR) (gs : List Field)
+    (hk : keysNodupC cs = true) (hS : frontEnd pkg fuel cs = .ok S)
+    (hl : lookupComp cs name = some r) (hobj : isObjectNode r = true) (hsorted : sortedKeys (propsOf r) = true)
+    (hflat : rawFields (attrsOf r).required (propsOf r) = some gs)
+    (hP : Plain S = true) (hrun : runChain goChain S = .ok Sg) (hs : noConstrainedAlias Sg = true)
+    (n : Nat) (v : GoVal) (lc ls : List Viol)
+    (hc : goValidate n Sg pkg name v = .ok lc)
+    (hsp : violations n [] (FE.srcStructTy gs) v = .ok ls) : lc = ls := by
+  obtain ⟨o, fs, ho, hty, _, _, hbuilt⟩ := keeps_object pkg fuel cs S hk hS hl hobj
+  rw [Cog.Front.OpenApi.sortFields_id hsorted hbuilt] at hty
+  obtain ⟨hloc, hty'⟩ := Cog.Front.JsonSchema.chain_struct goChain (by decide) S Sg hP hrun pkg name o ho fs [] none Cog.Front.JsonSchema.m0 hty
+  have hsame := vFields_same (Cog.Front.OpenApi.fieldsBuilt_same hbuilt hflat)
+  have := violations_flat Sg pkg name _ _ _ [] none Cog.Front.JsonSchema.m0 hloc hty' hsame n v
+  rw [FE.srcStructTy] at hsp
+  rw [← this] at hsp
+  exact C08_validate_eq_partial Sg hs n pkg name v lc ls hc hsp
+
+theorem C08_openapi_validate_accepts_valid_partial
+    (pkg : String) (fuel : Nat) (cs : Components) (S Sg : Schemas) (name : String) (r : OSR) (gs : List Field)
+    (hk : keysNodupC cs = true) (hS : frontEnd pkg fuel cs = .ok S)
+    (hl : lookupComp cs name = some r) (hobj : isObjectNode r = true) (hsorted : sortedKeys (propsOf r) = true)
+    (hflat : rawFields (attrsOf r).required (propsOf r) = some gs)
+    (hP : Plain S = true) (hrun : runChain goChain S = .ok Sg) (hs : noConstrainedAlias Sg = true)
+    (n : Nat) (v : GoVal) (lc : List Viol)
+    (hc : goValidate n Sg pkg name v = .ok lc)
+    (hsp : violations n [] (FE.srcStructTy gs) v = .ok []) : lc = [] :=
+  C08_openapi_validate_end_to_end_partial pkg fuel cs S Sg name r gs hk hS hl hobj hsorted hflat hP hrun hs n v lc [] hc hsp
+
+def scO (a : OAttrs) : OSR := .mk "" true "" (.mk a [] [] [] [] .none .none)
+
+/-- `R = {code: string minLength 2 maxLength 4 (required), n?: integer(int64) minimum 1 maximum 10}` (integer bounds are int64
+    in the IR: evaluated by the kernel) -/
+def exPropsO : List (String × OSR) := [
+  ("code", scO { types := some ["string"], minLength := 2, maxLength := some 4 }),
+  ("n", scO { types := some ["integer"], format := "int64", min := some { repr := "1", asInt64 := 1, num := 1, den := 1 },
+              max := some { repr := "10", asInt64 := 10, num := 10, den := 1 } })]
+def exRootO : OSR := .mk "" true "" (.mk { types := some ["object"], required := ["code"], addlHas := some false } [] [] [] exPropsO .none .none)
+def exCompsO : Components := [("R", exRootO)]
+def exGsO : List Field := (rawFields (attrsOf exRootO).required (propsOf exRootO)).getD []
+def exValO : GoVal := .struct [("code", false, .str "toolong"), ("n", true, .ptr (.int 99))]
+
+example :
+    keysNodupC exCompsO = true ∧ isObjectNode exRootO = true ∧ sortedKeys (propsOf exRootO) = true ∧
+    (rawFields (attrsOf exRootO).required (propsOf exRootO)).isSome = true ∧
+    (match frontEnd "p" 8 exCompsO with
+     | .ok S =>
+       Plain S &&
+       (match runChain goChain S with
+        | .ok Sg =>
+          noConstrainedAlias Sg &&
+          (FE.okList (goValidate 6 Sg "p" "R" exValO) ==
+             some [{ path := [.fld "code"], op := "<=", cons := "maxLength", bound := 16 },
+                   { path := [.fld "n"], op := "<=", cons := "<=", bound := 40 }]) &&
+          (FE.okList (violations 6 [] (FE.srcStructTy exGsO) exValO) == FE.okList (goValidate 6 Sg "p" "R" exValO)) &&
+          (FE.okList (goValidate 6 Sg "p" "R" (.struct [("code", false, .str "ok"), ("n", true, .nil)])) == some [])
+        | _ => false)
+     | _ => false) = true := by
+  refine ⟨by decide +kernel, by decide +kernel, by decide +kernel, by decide +kernel, by decide +kernel⟩
+
+end OA
+
 -- ---- END block of the c01-front builder ----
 
 end Cog.Sem
